@@ -1,5 +1,5 @@
 (* Properties/C05.v — No message sequence from a remote peer can crash or bloat the client. *)
-From Storrent Require Import Base.Bytes Base.Bencode Model.Wire Model.PeerCore Proof.PeerCore.
+From Storrent Require Import Base.Bytes Base.Bencode Model.Wire Model.PeerCore Proof.PeerCore Proof.Alloc.
 Open Scope N_scope.
 
 (* Handling any message, torrent command or tick, in ANY peer state (reachable or not,
@@ -11,7 +11,13 @@ Theorem c05_total : forall s ballast o k, snd (step s ballast o k) <> VPanic.
 Proof. exact step_no_panic. Qed.
 Print Assumptions c05_total.
 
-(* PARTIAL: allocation proportional to the message (c05_alloc_proportional) is checked
-   on the implementation by the monitor of Check/PeerCheck.v (TotalAlloc per handled
-   message against 24*size + 64 KiB, 838,861 bytes for a Have before metadata); the
-   corresponding theorem about the model's cost function is not proved yet. *)
+(* What handling one message may allocate, by the model's cost function (a_alloc counts every
+   slice the handlers allocate or grow: bitmaps, copies of payloads, PEX and allowed-fast lists):
+   from ANY state, at most twice the size of the message, twice the peer's current bitmap and
+   twice the size a bitmap of this torrent can have (838,861 bytes' worth of bits before the
+   metadata is known, the cap the handlers impose), plus a constant.  The monitor of
+   Check/PeerCheck.v ties the cost function to the Go runtime's TotalAlloc on every run. *)
+Theorem c05_alloc_proportional : forall s ballast m ad k,
+  a_alloc (fst (step s ballast (OpMsg m ad) k)) <= 2 * msg_size m + 2 * blen (peer_bm s) + 2 * bm_cap s + 64.
+Proof. exact message_alloc_bounded. Qed.
+Print Assumptions c05_alloc_proportional.
